@@ -22,7 +22,7 @@ func (fr *Frame) applySpec(sp *FuncSpec, fn *ssa.Function, name string, args []V
 	env := &SpecEnv{u: u, st: old, old: old, names: map[string]SVal{}}
 	u.bindParams(env, sp, fn, sig, args, nil)
 	for _, rq := range sp.Requires {
-		t, err := env.evalBool(rq.E)
+		t, err := env.evalGoal(rq.E)
 		if err != nil {
 			u.unsupportedf("requires %q of %s at %s: %v", rq.Text, shortFn(name), posString(u.eng.prog, pos), err)
 			continue
@@ -30,7 +30,7 @@ func (fr *Frame) applySpec(sp *FuncSpec, fn *ssa.Function, name string, args []V
 		u.oblige(fr, "pre", pos, fmt.Sprintf("%s requires %s", lastSeg(stripTypeArgs(name)), rq.Text), pc, t)
 	}
 	// havoc the assigns footprint
-	comps, all, err := u.eng.resolveAssigns(sp)
+	comps, all, err := u.eng.resolveAssigns(sp, fn)
 	if err != nil {
 		u.unsupportedf("assigns of %s: %v", shortFn(name), err)
 	}
@@ -96,7 +96,7 @@ func (fr *Frame) applySpec(sp *FuncSpec, fn *ssa.Function, name string, args []V
 	penv := &SpecEnv{u: u, st: st, old: old, names: map[string]SVal{}}
 	u.bindParams(penv, sp, fn, sig, args, results)
 	for _, en := range sp.Ensures {
-		t, err := penv.evalBool(en.E)
+		t, err := penv.evalHyp(en.E)
 		if err != nil {
 			if strings.HasPrefix(err.Error(), "unknown name") {
 				// clause about the callee's own locals (ghost use): proved inside the callee, not usable here
@@ -126,7 +126,7 @@ type compRef struct {
 //   elems(T)       elements of arrays/slices of T
 //   mapof(M)       a map type, e.g. mapof(map[common.Address]bool)
 //   hfn:name       a ghost heap function
-func (eng *Engine) resolveAssigns(sp *FuncSpec) ([]compRef, bool, error) {
+func (eng *Engine) resolveAssigns(sp *FuncSpec, fn *ssa.Function) ([]compRef, bool, error) {
 	var out []compRef
 	for _, item := range sp.Assigns {
 		switch {
@@ -170,12 +170,20 @@ func (eng *Engine) resolveAssigns(sp *FuncSpec) ([]compRef, bool, error) {
 			parts := strings.Split(item, ".")
 			var t types.Type
 			var rest []string
+			if parts[0] == "self" && fn != nil && len(fn.Params) > 0 {
+				// self.f.g : relative to the (instantiated) receiver type of the function
+				if pt, ok := fn.Params[0].Type().Underlying().(*types.Pointer); ok {
+					t, rest = pt.Elem(), parts[1:]
+				}
+			}
+			if t == nil {
 			for i := len(parts); i >= 1; i-- {
 				tt, err := eng.resolveType(strings.Join(parts[:i], "."))
 				if err == nil {
 					t, rest = tt, parts[i:]
 					break
 				}
+			}
 			}
 			if t == nil {
 				return nil, false, fmt.Errorf("cannot resolve assigns item %q", item)
@@ -263,27 +271,28 @@ func (u *Unit) frameCheckComps(fr *Frame, pc Term, comps []compRef, pos token.Po
 	}
 }
 
-var assignSetCache = map[*FuncSpec]map[string]bool{}
+var assignSetCache = map[string]map[string]bool{}
 
 func (u *Unit) assignSet() map[string]bool {
 	globalMu.Lock()
 	defer globalMu.Unlock()
-	if s, ok := assignSetCache[u.spec]; ok {
+	ck := fmt.Sprintf("%p|%s", u.spec, u.fn.String())
+	if s, ok := assignSetCache[ck]; ok {
 		return s
 	}
-	comps, all, err := u.eng.resolveAssigns(u.spec)
+	comps, all, err := u.eng.resolveAssigns(u.spec, u.fn)
 	if err != nil {
 		u.unsupportedf("assigns of unit: %v", err)
 	}
 	if all {
-		assignSetCache[u.spec] = nil
+		assignSetCache[ck] = nil
 		return nil
 	}
 	s := map[string]bool{}
 	for _, c := range comps {
 		s[c.Name] = true
 	}
-	assignSetCache[u.spec] = s
+	assignSetCache[ck] = s
 	return s
 }
 
@@ -431,7 +440,7 @@ func exprIdentName(dr *ssa.DebugRef) string {
 func (fr *Frame) buildCandidates(li *loopInfo, phiEntry map[*ssa.Phi]Value) []*Candidate {
 	u := fr.u
 	var out []*Candidate
-	add := func(text string, auto bool, eval func(fr *Frame, st *State, phi map[*ssa.Phi]Value) (Term, error)) {
+	add := func(text string, auto bool, eval func(fr *Frame, st *State, phi map[*ssa.Phi]Value, hyp bool) (Term, error)) {
 		flag := u.c.Fresh("inv_on", SBool)
 		cd := &Candidate{ID: len(u.cands) + 1, Flag: flag.S, Text: text, Auto: auto, LoopID: li.id, Eval: eval}
 		u.cands = append(u.cands, cd)
@@ -480,9 +489,12 @@ func (fr *Frame) buildCandidates(li *loopInfo, phiEntry map[*ssa.Phi]Value) []*C
 			}
 			_ = mentionsHdr
 			u.placedInv[inv.Text] = true
-			add(inv.Text, false, func(fr *Frame, st *State, phi map[*ssa.Phi]Value) (Term, error) {
+			add(inv.Text, false, func(fr *Frame, st *State, phi map[*ssa.Phi]Value, hyp bool) (Term, error) {
 				env := &SpecEnv{u: u, st: st, old: u.entrySt, names: fr.invNames(li, st, phi)}
-				return env.evalBool(inv.E)
+				if hyp {
+					return env.evalHyp(inv.E)
+				}
+				return env.evalGoal(inv.E)
 			})
 		}
 	}
@@ -547,7 +559,7 @@ func (fr *Frame) buildCandidates(li *loopInfo, phiEntry map[*ssa.Phi]Value) []*C
 			if mono && step != 0 && initV != nil && invariantVal(initV) {
 				iv := initV
 				if step > 0 {
-					add(fmt.Sprintf("auto: %s >= %s", phiLabel(p), iv.Name()), true, func(fr *Frame, st *State, phi map[*ssa.Phi]Value) (Term, error) {
+					add(fmt.Sprintf("auto: %s >= %s", phiLabel(p), iv.Name()), true, func(fr *Frame, st *State, phi map[*ssa.Phi]Value, hyp bool) (Term, error) {
 						t, ok := phiVal(fr, p, phi)
 						i0, ok2 := fr.val(iv).(Scalar)
 						if !ok || !ok2 {
@@ -556,7 +568,7 @@ func (fr *Frame) buildCandidates(li *loopInfo, phiEntry map[*ssa.Phi]Value) []*C
 						return Ge(t, i0.T), nil
 					})
 				} else {
-					add(fmt.Sprintf("auto: %s <= %s", phiLabel(p), iv.Name()), true, func(fr *Frame, st *State, phi map[*ssa.Phi]Value) (Term, error) {
+					add(fmt.Sprintf("auto: %s <= %s", phiLabel(p), iv.Name()), true, func(fr *Frame, st *State, phi map[*ssa.Phi]Value, hyp bool) (Term, error) {
 						t, ok := phiVal(fr, p, phi)
 						i0, ok2 := fr.val(iv).(Scalar)
 						if !ok || !ok2 {
@@ -611,7 +623,7 @@ func (fr *Frame) buildCandidates(li *loopInfo, phiEntry map[*ssa.Phi]Value) []*C
 										rel = ">"
 									}
 								}
-								add(fmt.Sprintf("auto: %s+%d %s %s", phiLabel(p), kk, rel, yv.Name()), true, func(fr *Frame, st *State, phi map[*ssa.Phi]Value) (Term, error) {
+								add(fmt.Sprintf("auto: %s+%d %s %s", phiLabel(p), kk, rel, yv.Name()), true, func(fr *Frame, st *State, phi map[*ssa.Phi]Value, hyp bool) (Term, error) {
 									t, ok := phiVal(fr, p, phi)
 									b0, ok2 := fr.val(yv).(Scalar)
 									if !ok || !ok2 {
@@ -652,7 +664,7 @@ func (fr *Frame) buildCandidates(li *loopInfo, phiEntry map[*ssa.Phi]Value) []*C
 			if _, _, isInt := intBits(ip.Type()); !isInt {
 				continue
 			}
-			add(fmt.Sprintf("auto: len(%s) - %s constant", phiLabel(sp), phiLabel(ip)), true, func(fr *Frame, st *State, phi map[*ssa.Phi]Value) (Term, error) {
+			add(fmt.Sprintf("auto: len(%s) - %s constant", phiLabel(sp), phiLabel(ip)), true, func(fr *Frame, st *State, phi map[*ssa.Phi]Value, hyp bool) (Term, error) {
 				var sv Value
 				if phi != nil {
 					sv = phi[sp]
